@@ -143,8 +143,13 @@ def _ema_time_weighted(arr: np.ndarray, times: np.ndarray, halflife: int) -> np.
     NaN values propagate the last valid EMA value forward.
     """
     out = np.zeros_like(arr, dtype="float64")
-    residual = out[0] = arr[0]
-    residual_weights = 1
+    if np.isnan(arr[0]):
+        out[0] = np.nan
+        residual = 0.0
+        residual_weights = 0.0
+    else:
+        residual = out[0] = arr[0]
+        residual_weights = 1.0
     for i, x in enumerate(arr[1:], 1):
         hl = (times[i] - times[i - 1]) / halflife
         beta = np.exp(-np.log(2) * hl)
